@@ -92,3 +92,108 @@ def check_ids(out_gtfs, sc, ref_exon_ids=None):
             if ref_exon_ids and key in ref_exon_ids and ref_exon_ids[key] != eid:
                 v.append(("C17:reference-exon-id-not-preserved", {"exon": key, "ref": ref_exon_ids[key], "out": eid}))
     return v
+
+
+def check_wellformed(name, g, chrom_lens):
+    """C03 part 1: every transcript well-formed, gene/transcript records consistent.  Returns [(sig, detail)]."""
+    v = []
+    tt = transcript_table(g)
+    gene_members = defaultdict(list)
+    for tid, t in tt.items():
+        gene_members[t["gene"]].append(tid)
+        if not t["exons"]:
+            v.append(("C03:transcript-without-exons", {"file": name, "transcript": tid}))
+            continue
+        if len(t["records"]) != 1:
+            v.append(("C03:transcript-record-count", {"file": name, "transcript": tid, "records": len(t["records"])}))
+        ex = t["exons"]
+        fo = t["exons_file_order"]
+        if fo != ex and fo != list(reversed(ex)):
+            v.append(("C03:exons-unsorted", {"file": name, "transcript": tid, "exons": fo[:6]}))
+        if len(set(r["chr"] for r in t["exon_recs"])) != 1 or len(set(r["strand"] for r in t["exon_recs"])) != 1:
+            v.append(("C03:exons-on-different-chr-or-strand", {"file": name, "transcript": tid}))
+        L = chrom_lens.get(t["chr"])
+        for i, (s, e) in enumerate(ex):
+            if not (1 <= s <= e) or (L is not None and e > L):
+                v.append(("C03:exon-coordinates-out-of-range", {"file": name, "transcript": tid, "exon": (s, e),
+                                                                  "chr_len": L}))
+            if i and s <= ex[i - 1][1]:
+                v.append(("C03:exons-overlap", {"file": name, "transcript": tid, "exons": ex[i - 1:i + 1]}))
+        for rec in t["records"]:
+            if (rec["start"], rec["end"]) != (ex[0][0], ex[-1][1]):
+                v.append(("C03:transcript-span-differs-from-exons",
+                          {"file": name, "transcript": tid, "record": (rec["start"], rec["end"]),
+                           "exons": (ex[0][0], ex[-1][1])}))
+            if rec["chr"] != t["chr"] or rec["strand"] != t["strand"]:
+                v.append(("C03:transcript-record-chr-or-strand", {"file": name, "transcript": tid}))
+            if rec["attrs"].get("gene_id") != t["gene"]:
+                v.append(("C03:transcript-record-gene-differs", {"file": name, "transcript": tid}))
+    for gid, tids in gene_members.items():
+        recs = g["genes"].get(gid, [])
+        if len(recs) != 1:
+            v.append(("C03:gene-record-count", {"file": name, "gene": gid, "records": len(recs),
+                                                "transcripts": tids[:4]}))
+            continue
+        rec = recs[0]
+        for tid in tids:
+            t = tt[tid]
+            if not t["exons"]:
+                continue
+            if t["chr"] != rec["chr"]:
+                v.append(("C03:gene-on-other-chromosome", {"file": name, "gene": gid, "transcript": tid}))
+            elif t["strand"] != rec["strand"]:
+                v.append(("C03:gene-strand-differs-from-transcript",
+                          {"file": name, "gene": gid, "gene_strand": rec["strand"], "transcript": tid,
+                           "transcript_strand": t["strand"]}))
+            elif not (rec["start"] <= t["exons"][0][0] and t["exons"][-1][1] <= rec["end"]):
+                v.append(("C03:gene-does-not-contain-transcript",
+                          {"file": name, "gene": gid, "gene_span": (rec["start"], rec["end"]), "transcript": tid,
+                           "span": (t["exons"][0][0], t["exons"][-1][1])}))
+    for gid in g["genes"]:
+        if gid not in gene_members:
+            v.append(("C03:gene-without-transcripts", {"file": name, "gene": gid}))
+    return v
+
+
+def check_reference_verbatim(name, g, sc):
+    v = []
+    ref = ref_table(sc)
+    tt = transcript_table(g)
+    for tid, t in tt.items():
+        if tid in ref:
+            r = ref[tid]
+            if t["exons"] != sorted(r["exons"]):
+                v.append(("C03:reference-transcript-coordinates-changed",
+                          {"file": name, "transcript": tid, "out": t["exons"][:6], "ref": r["exons"][:6]}))
+            if t["strand"] != r["strand"] or t["chr"] != r["chr"]:
+                v.append(("C03:reference-transcript-strand-or-chr-changed", {"file": name, "transcript": tid}))
+            if t["gene"] != r["gene"]:
+                v.append(("C03:reference-transcript-gene-changed",
+                          {"file": name, "transcript": tid, "out": t["gene"], "ref": r["gene"]}))
+    return v
+
+
+def check_extended(models, extended, sc):
+    """extended = all reference transcripts + exactly the novel transcripts of models, same coordinates."""
+    v = []
+    ref = ref_table(sc)
+    tm = transcript_table(models)
+    te = transcript_table(extended)
+    for tid in ref:
+        if tid not in te:
+            v.append(("C03:extended-misses-reference-transcript", {"transcript": tid}))
+    novel_m = {tid: t for tid, t in tm.items() if tid not in ref}
+    novel_e = {tid: t for tid, t in te.items() if tid not in ref}
+    for tid, t in novel_m.items():
+        if tid not in novel_e:
+            v.append(("C03:extended-misses-novel-transcript", {"transcript": tid}))
+        else:
+            e = novel_e[tid]
+            if (e["exons"], e["strand"], e["chr"], e["gene"]) != (t["exons"], t["strand"], t["chr"], t["gene"]):
+                v.append(("C03:extended-novel-transcript-differs",
+                          {"transcript": tid, "models": [t["exons"][:4], t["strand"], t["gene"]],
+                           "extended": [e["exons"][:4], e["strand"], e["gene"]]}))
+    for tid in novel_e:
+        if tid not in novel_m:
+            v.append(("C03:extended-has-extra-transcript", {"transcript": tid}))
+    return v
